@@ -202,6 +202,17 @@ def differential_case(case):
         else:
             m1.fit(X, y1)
             m2.fit(X, Kname)
+            # the matrix must also reach the training when it is handed to fit_predict (same fitted model, same labels)
+            if name != "KernelRIM":
+                m4, _, _ = C.build(name, pre, X, seed)
+                try:
+                    lab4 = m4.fit_predict(X, Kname)
+                    s4, s2_ = _state(m4), _state(m2)
+                    bad4 = next((k for k in s2_ if k not in s4 or not np.array_equal(s2_[k], s4[k])), None)
+                    if bad4 is not None or not np.array_equal(lab4, m2.labels_):
+                        v.append(violation("fit_predict_ignores_the_precomputed_matrix", {"attribute": bad4, "fit_predict_labels": lab4, "fit_labels": m2.labels_}, **where))
+                except Exception as e:  # noqa
+                    v.append(violation("fit_predict_ignores_the_precomputed_matrix", {"error": repr(e)[:200]}, **where))
         s1, s2 = _state(m1), _state(m2)
         for k in s1:
             if k not in s2 or not np.array_equal(s1[k], s2[k]):
